@@ -347,6 +347,7 @@ def _run(ctx):
         stream_dict_eq(ctx, pq, w)
         stream_boundary(ctx, pq, root, enums, structs)
         stream_known(ctx, pq, root, enums, structs, specs_names)
+        stream_index(ctx, pq, root, enums, structs, specs_names)
         stream_files(ctx, pq)
         stream_edits(ctx, pq)
     finally:
@@ -979,6 +980,79 @@ def stream_files(ctx, pq):
             ctx.dist.setdefault("files.parsed", {})[k] = ctx.dist.setdefault("files.parsed", {}).get(k, 0) + v
         for struct, fn, msg in problems[:1]:
             ctx.fail({"component": "writer-call-sites", "kind": "idl-nonconformant", "struct": struct}, dict(case, where=fn), msg)
+
+
+INDEX_ROOTS = ["ColumnIndex", "OffsetIndex", "PageLocation", "BloomFilterHeader", "SortingColumn", "PageEncodingStats",
+               "ColumnCryptoMetaData", "EncryptionAlgorithm", "FileCryptoMetaData"]
+
+
+def stream_index(ctx, pq, root, enums, structs, specs_names):
+    """the IDL structs outside the property's own list (page index, bloom filter, crypto): same oracles on raw int-keyed dicts with
+    IDL-consistent markers and on specification-encoded bytes; each case in its own subprocess when it holds a list<bool> (read_list
+    parses those as structs).  Failures are classified by the list element types involved (open findings, all in .pyx)."""
+    rng = ctx.rng
+    n = 90 if ctx.quick() else 900
+    g = Gen(rng, enums, structs, specs_names, "wide")
+    w = T.Worker(root, ctx.scratch)
+    try:
+        fixed = [
+            ("struct", "ColumnIndex", [(5, "null_counts", ("list", "FI64"), ("list", "FI64", [("i64", 0), ("i64", 7), ("i64", 2 ** 40)]))]),
+            ("struct", "ColumnIndex", [(5, "null_counts", ("list", "FI64"), ("list", "FI64", [("i64", 0), ("i64", 7)]))]),
+            ("struct", "ColumnIndex", [(2, "min_values", ("list", "FBinary"), ("list", "FBinary", [("bin", b"\x00\xff\xfe"), ("bin", b"a")])),
+                                       (3, "max_values", ("list", "FBinary"), ("list", "FBinary", [("bin", b"\x80"), ("bin", b"b")]))]),
+            ("struct", "ColumnIndex", [(2, "min_values", ("list", "FBinary"), ("list", "FBinary", [("bin", b"abc"), ("bin", "é".encode())]))]),
+        ]
+        for i in range(n + len(fixed)):
+            g.budget = 0
+            tr = fixed[i] if i < len(fixed) else g.struct(INDEX_ROOTS[i % len(INDEX_ROOTS)], 0, rng.choice([(1, 2, 3), (1, 15), (2, 16)]))
+            lb = has(tr, lambda t: t[0] == "list" and t[1] == "FBool" and t[2])
+            l64 = has(tr, lambda t: t[0] == "list" and t[1] == "FI64" and t[2])
+            lbin = has(tr, lambda t: t[0] == "list" and t[1] == "FBinary" and t[2])
+            small = has(tr, lambda t: t[0] in ("i8", "i16"))
+            case = {"stream": "index-structs", "root": tr[1], "tree": tree_json(tr)}
+            ctx.case(case, trivial=(not tr[2]))
+            ctx.count("index.root", tr[1])
+            ctx.count("index.lists", "+".join(k for k, v in (("bool", lb), ("i64", l64), ("binary", lbin)) if v) or "none")
+            enc = pq.call("thrift_enc", to_tv(tr))
+            if sym(enc[0]) != "ok":
+                continue
+            b0 = bytes(enc[1])
+            raw = to_raw(tr)
+            # ---- write side: to_bytes of the IDL-typed object must be the specification's bytes
+            r = (one_shot(root, ctx.scratch, "to_bytes", ("KeyValue", raw)) if lb else w.call("to_bytes", ("KeyValue", raw)))
+            m = pq.call("c_to_bytes", CAP, T.pv(raw))
+            want = ["ok", "#" + r[1].hex()] if r[0] == "ok" else (["exc"] if r[0] == "exc" else list(r[:2]))
+            ctx.correspondence("to_bytes(index/bloom/crypto structs) ~ impl model c_to_bytes (bytes or exception)", case, canon_out(m), want)
+            if r[0] != "ok" or r[1] != b0:
+                kind = "list-bool" if lb else ("list-i64-as-i32" if l64 else ("i8-i16-as-i32-i64" if small else
+                       ("empty-list-element-type" if has(tr, lambda t: t[0] == "list" and not t[2]) else "wrong-bytes")))
+                comp = "write_thrift" if kind == "i8-i16-as-i32-i64" else "write_list"
+                ctx.fail({"component": comp, "kind": kind, "stream": "index-structs", "root": tr[1]}, case,
+                         "to_bytes of the IDL-typed object is not the specification's encoding (%s)" % (r[0] if r[0] != "ok" else "%d vs %d bytes" % (len(r[1]), len(b0))))
+            # ---- read side: parse the specification's bytes and serialise again
+            r2 = (one_shot(root, ctx.scratch, "reserialise", ("KeyValue", b0), timeout=60) if lb else w.call("reserialise", ("KeyValue", b0), 60))
+            ok2 = r2[0] == "ok" and r2[1][3] == b0 and not r2[1][2]
+            nonutf8 = has(tr, lambda t: t[0] == "list" and t[1] == "FBinary" and any(not _utf8(x[1]) for x in t[2]))
+            if not lb and not nonutf8 and r2[0] == "ok":      # UTF-8 decoding with errors="ignore" is outside the model
+                m2 = pq.call("c_from_buffer", b0)
+                ctx.correspondence("from_buffer(index/bloom/crypto structs, spec-encoded) ~ impl model c_from_buffer", case, T.canon(m2),
+                                   ["ok", T.canon(T.pv(r2[1][0])), len(b0) - r2[1][1]])
+            if not ok2:
+                kind = "list-bool" if lb else ("list-i64-as-i32" if l64 else ("list-binary-as-str" if nonutf8 else
+                       ("i8-i16-as-i32-i64" if small else ("empty-list-element-type" if has(tr, lambda t: t[0] == "list" and not t[2]) else "bytes-differ"))))
+                comp = "read_list" if kind in ("list-bool", "list-binary-as-str") else ("write_thrift" if kind == "i8-i16-as-i32-i64" else "write_list")
+                ctx.fail({"component": comp, "kind": kind, "stream": "index-structs", "root": tr[1], "outcome": r2[0]}, case,
+                         "from_buffer + to_bytes of specification-encoded bytes does not give them back (%s)" % (r2[0],))
+    finally:
+        w.close()
+
+
+def _utf8(b):
+    try:
+        b.decode("utf-8")
+        return True
+    except UnicodeDecodeError:
+        return False
 
 
 def stream_edits(ctx, pq):
